@@ -1,44 +1,72 @@
 /-
   C08 — serialization is faithful, size-exact, stream-composable and fails cleanly.
 
-  All statements are about the definitions of `Lattigo/Model/Codec.lean` that the driver
-  executes (`enc`, `size`, `dec`, `decC`, `decMany`, `decInto`, `allocs`), for EVERY format
-  `f : Fmt` (structural induction), hence for every lattigo type of the table at the end of
-  that file (`fmtOf`) — and for every value, of any size. The model follows /repo with the
-  fixes /verif/fixes/C08-*.diff applied (the tie lines, incl. `into` on dirty receivers, check
-  that it does).
+  All statements are about the definitions of `Lattigo/Model/Codec.lean` that the driver executes
+  (`enc`, `size`, `marshalBinary`, `dec`, `decC`, `decS`, `decMany`, `decInto`, `allocs`, `goFields`),
+  for EVERY format `f : Fmt` (structural induction), hence for every serialisable lattigo type
+  (`goTypes`, 34 Go types, all the types of /repo that have `WriteTo`/`ReadFrom`) and every value,
+  of any size. The model follows /repo HEAD (fixes C08-A … C08-V committed); the tie lines
+  (`enc size marshal dec decc many into fields`) check on every run that it does.
 
-    size_exact, size_exact_wt      BinarySize = bytes written, for every value that has the
-                                   shape of its type (incl. keys carrying an unwritten seed)
-    roundtrip, back_to_back        exact consumption, several objects on one stream
-    trunc_err                      no proper prefix is accepted
-    chunk_indep, chunked_roundtrip the transport may fragment the stream arbitrarily
-    enc_bytes                      encodings are byte strings
-    signed_byte_roundtrip, signed_byte_range, signed_field_roundtrip
-                                   the signed one-byte fields (`LogDimensions`) carry exactly
-                                   [-128, 127], two's complement, and round-trip on all of it
-    recv_indep                     the decoded value does not depend on the receiver, for every
-                                   lattigo type and every prior state of the receiver
-    recv_indep_clean               … and the exact condition on a format for that
-    recv_indep_fresh               `dec` is `decInto` on a fresh object
-    bounded_alloc                  on EVERY input, allocation requests ≤ max(input length, 2^20)
-                                   (unread bytes known: `UnmarshalBinary` / `*buffer.Buffer`)
-    bounded_alloc_honest           the length checks never reject an honest input
+  PROVED FOR ALL INPUTS, by clause of the property text
+    "exactly the announced number of bytes"
+      size_exact, size_exact_wt      `BinarySize()` = bytes `WriteTo` writes, for every value that has
+                                     the shape of its type (any combination of optional fields)
+      marshal_binary_exact           `MarshalBinary` = those same bytes, `BinarySize()` of them
+    "identical through every writing entry point"
+      (the model has ONE encoder; that the entry points agree is probed: `writers_agree`,
+       `window_write`, `writer_fails`; `marshal` is tied)
+    "reading back reproduces the object and consumes exactly the bytes written; back-to-back"
+      roundtrip, back_to_back        exact consumption, k objects on one stream
+      signed_byte_roundtrip, signed_byte_range, signed_field_roundtrip   `LogDimensions`
+    "into a fresh object or into one that previously held any other value"
+      recv_indep                     for every lattigo type, every prior state of the receiver
+      recv_indep_clean, recv_indep_fresh
+    "does not depend on how the transport fragments the byte stream"
+      short_count_indep              a transport returning ARBITRARY short counts (io.Reader
+                                     contract) read through `io.ReadFull` loops: same value, same
+                                     remainder, whatever the counts
+      short_count_roundtrip          … and exactly `size f v` = `BinarySize()` bytes are consumed
+      chunk_indep, chunked_roundtrip the same for the byte-wise read-full reader
+      single_read_counterexample     the hypothesis "every block is read with a read-full loop" is
+                                     needed: one `Read` per block decodes 258 or 2 from the same bytes
+    "a stream that ends early … results in an error, never a partial object"
+      trunc_err                      no proper prefix of an encoding is accepted
+    "corrupted length field … never an unbounded allocation"
+      bounded_alloc                  on EVERY input, requests ≤ max(input length, 2^20), for the
+                                     reader that knows its unread bytes (`UnmarshalBinary`)
+      bounded_alloc_honest           the checks never reject an honest input
+    completeness of the codec list
+      codec_fields_complete          every serialisable Go type has a format, and its declared field
+                                     list has exactly one Go field per value-carrying leaf of the
+                                     format; the tie `fields` compares that list with Go reflection
+    enc_bytes                        encodings are byte strings
 
-  Hypotheses the proofs force, and the known findings behind them:
-    * `Shape`/`WT` ask opaque blocks to have the announced width. `rlwe.Scale` prints its two
-      numbers with `Text('e', 39)`, 45 characters only while the decimal exponent has two
-      digits: KNOWN FINDING `C08/rlwe.Scale.BinarySize/assumes-two-digit-exponent`.
-    * `bounded_alloc` is about the reader that knows how many bytes are left. On a
-      `bufio.Reader` the count cannot be compared with anything before `make`:
+  HYPOTHESES THE PROOFS FORCE, and the known findings behind them
+    * `Shape`/`WT` ask opaque blocks to have the announced width. `rlwe.Scale` prints its numbers
+      with `Text('e', 39)`, 45 characters only while the decimal exponent has two digits:
+      KNOWN FINDING `C08/rlwe.Scale.BinarySize/assumes-two-digit-exponent`.
+    * `WT` asks signed byte fields to be in [-128, 127] and block lengths ≤ 2^20: outside, the
+      real encoders now return an error (fixes C08-U/V/C); the model's `enc` is only specified on `WT`.
+    * `bounded_alloc` is about the reader that knows how many bytes are left; on a `bufio.Reader`
+      a count cannot be checked before `make`:
       KNOWN FINDING `C08/structs.Vector.ReadFrom/unchecked-length`.
-  Not modelled (probes only): bufio internals (KNOWN FINDING
-  `C08/ReadFrom(io.Reader)/private-bufio-overreads-next-object`), `encoding/json` and `math/big`
-  number texts (KNOWN FINDING `C08/bootstrapping.ParametersLiteral.UnmarshalBinary/...`).
+
+  TIED ONLY (model = code on the explored inputs): the byte layouts themselves (`enc`/`dec` of each
+  format against `WriteTo`/`ReadFrom`), `size` against `BinarySize`, `decInto` against decoding into
+  dirty receivers, `goFields` against reflection.
+  PROBED ONLY (no model): bufio internals and reader buffer sizes (`reader_size`), `buffer.Buffer`
+  windows (`window_write`), writer failures, panics/crashes on corrupted headers (`corrupt_length`),
+  the JSON-only types (scheme `Parameters`, bootstrapping/mod1/dft literals), `math/big` number texts.
+  NOT COVERED: `ReadFrom` on a plain `io.Reader` wraps a private `bufio.Reader` and reads ahead
+  (documented by the library; KNOWN FINDING
+  `C08/ReadFrom(io.Reader)/private-bufio-overreads-next-object`): exact reader position afterwards
+  holds for `buffer.Reader`s only.
 -/
 import Lattigo.Proofs.Codec
 import Lattigo.Proofs.CodecRecv
 import Lattigo.Proofs.CodecAlloc
+import Lattigo.Proofs.CodecStream
 
 namespace Lattigo.C08
 open Lattigo.Codec
@@ -164,6 +192,91 @@ example : (decC u64 [[1], [], [0, 0], [0, 0, 0, 0, 0, 9]]).map (fun p => (p.1, p
     = some (.num 1, [9]) :=
   chunked_roundtrip u64 (.num 1) [9] _ (by simp [u64, WT]) (by decide)
 
+/-! ### a transport that returns short counts -/
+
+/-- **short_count_indep.** `decS` reads every fixed-width block with an `io.ReadFull` loop over a
+    transport that returns arbitrary short counts (`readOnce`; `readFullLoop_step`). Whatever the
+    counts — two deliveries `cs₁`, `cs₂` of the same bytes — the decoded value and the unread
+    remainder are the same, and they are what the flat decoder gives on the bytes. -/
+theorem short_count_indep (f : Fmt) (cs₁ cs₂ : List (List Nat)) (h : cs₁.flatten = cs₂.flatten) :
+    (decS f cs₁).map (fun p => (p.1, p.2.flatten)) = (decS f cs₂).map (fun p => (p.1, p.2.flatten)) ∧
+    (decS f cs₁).map (fun p => (p.1, p.2.flatten)) = dec f cs₁.flatten := by
+  rw [decS_eq_dec, decS_eq_dec, h]; exact ⟨rfl, rfl⟩
+
+/-- **short_count_roundtrip.** However the transport cuts `enc f v ++ rest`, the decoder returns
+    `v`, leaves exactly `rest` unread, and has consumed exactly `size f v` (`BinarySize()`) bytes. -/
+theorem short_count_roundtrip (f : Fmt) (v : Val) (rest : List Nat) (cs : List (List Nat))
+    (h : WT f v) (hcs : cs.flatten = enc f v ++ rest) :
+    ∃ cs', decS f cs = some (v, cs') ∧ cs'.flatten = rest ∧
+      cs.flatten.length - cs'.flatten.length = size f v := by
+  have h1 := decS_eq_dec f cs
+  rw [hcs, Codec.roundtrip f v rest h] at h1
+  cases hd : decS f cs with
+  | none => rw [hd] at h1; simp at h1
+  | some p =>
+    obtain ⟨v', cs'⟩ := p
+    rw [hd] at h1
+    simp only [Option.map_some, Option.some.injEq, Prod.mk.injEq] at h1
+    refine ⟨cs', by rw [h1.1], h1.2, ?_⟩
+    rw [hcs, h1.2, List.length_append, Codec.size_exact f v h]; omega
+
+theorem flatten_singletons (l : List Nat) : (l.map fun b => [b]).flatten = l := by
+  induction l with
+  | nil => rfl
+  | cons b l ih => simp [ih]
+
+/-- delivered one byte at a time -/
+example : ∃ cs', decS ciphertext ((enc ciphertext ctEx).map fun b => [b]) = some (ctEx, cs') ∧
+    cs'.flatten = [] ∧
+    ((enc ciphertext ctEx).map fun b => [b]).flatten.length - cs'.flatten.length = size ciphertext ctEx :=
+  short_count_roundtrip ciphertext ctEx [] _ ctEx_wt (by rw [flatten_singletons]; simp)
+
+/-- **single_read_counterexample.** The read-full loop is necessary: a decoder that issues ONE
+    `Read` per block and does not look at the count (`readSingle`; what `MetaData.ReadFrom`,
+    `Parameters.ReadFrom` did before C08-B/C and `buffer.ReadUint8Slice` still does, finding
+    `C08/buffer.ReadUint8Slice/single-Read-call-short-read`) decodes the same two bytes to 258 or to
+    2 depending on how they are delivered. -/
+theorem single_read_counterexample :
+    [[2, 1]].flatten = [[2], [1]].flatten ∧
+    (decG readSingle u16 [[2, 1]]).map (fun p => p.1) = some (.num 258) ∧
+    (decG readSingle u16 [[2], [1]]).map (fun p => p.1) = some (.num 2) :=
+  readSingle_not_independent
+
+/-! ### `MarshalBinary` -/
+
+/-- **marshal_binary_exact.** For every value that has the shape of its type, `MarshalBinary`
+    (a buffer of `BinarySize()` bytes filled by `WriteTo`, returned whole) is exactly the bytes
+    `WriteTo` writes, and there are `BinarySize()` of them. -/
+theorem marshal_binary_exact (f : Fmt) (v : Val) (h : Shape f v) :
+    marshalBinary f v = some (enc f v) ∧ (enc f v).length = size f v :=
+  marshalBinary_exact f v h
+
+example : marshalBinary ciphertext ctEx = some (enc ciphertext ctEx) :=
+  (marshal_binary_exact _ _ (WT_shape _ _ ctEx_wt)).1
+
+/-! ### completeness of the codec list -/
+
+/-- **codec_fields_complete.** Every serialisable Go type (`goTypes`: the 34 types with
+    `WriteTo`/`ReadFrom`, incl. the generic containers) has an entry in `goFields` whose format
+    exists and whose list of serialised Go fields has exactly one entry per value-carrying leaf of
+    that format. The tie `fields` checks on every run that this list, plus the declared derived
+    fields, is exactly what Go reflection finds in the type. -/
+theorem codec_fields_complete (g : String) (hg : g ∈ goTypes) :
+    ∃ ty ser der f, goFields g = some (ty, ser, der) ∧ fmtOf ty = some f ∧ ser.length = leafCount f := by
+  have h := fields_complete g hg
+  unfold fieldsOK at h
+  split at h
+  · rename_i ty ser der hgf
+    split at h
+    · rename_i f hf
+      exact ⟨ty, ser, der, f, hgf, hf, by simpa using h⟩
+    · simp at h
+  · simp at h
+
+example : ∃ ty ser der f, goFields "rlwe.Ciphertext" = some (ty, ser, der) ∧ fmtOf ty = some f ∧
+    ser.length = leafCount f := codec_fields_complete _ (by decide)
+example : leafCount ciphertext = 9 := by decide
+
 /-! ### encodings are byte strings -/
 
 /-- **enc_bytes.** All entries of an encoding are `< 256` (given byte literals in the format
@@ -265,6 +378,11 @@ end Lattigo.C08
 #print axioms Lattigo.C08.trunc_err
 #print axioms Lattigo.C08.chunk_indep
 #print axioms Lattigo.C08.chunked_roundtrip
+#print axioms Lattigo.C08.short_count_indep
+#print axioms Lattigo.C08.short_count_roundtrip
+#print axioms Lattigo.C08.single_read_counterexample
+#print axioms Lattigo.C08.marshal_binary_exact
+#print axioms Lattigo.C08.codec_fields_complete
 #print axioms Lattigo.C08.enc_bytes
 #print axioms Lattigo.C08.signed_byte_roundtrip
 #print axioms Lattigo.C08.signed_byte_range
